@@ -522,6 +522,12 @@ class Network(Module):
         self.base.synapses.append(synapse_type)
 
     def _append_multiple_synapses(self, pre_nodes, post_nodes, synapse_type):
+        # Check this before anything is registered: otherwise a refused call leaves a
+        # synapse type without parameters behind, and `integrate` fails afterwards.
+        assert len(pre_nodes) == len(
+            post_nodes
+        ), f"Got {len(pre_nodes)} presynaptic but {len(post_nodes)} postsynaptic compartments. Every synapse needs one of each."
+
         # Add synapse types to the module and infer their unique identifier.
         synapse_name = synapse_type._name
         synapse_current_name = f"i_{synapse_name}"
